@@ -3,6 +3,32 @@ from . import p_symbols, p_rs, p_charset, p_modes, p_macro, p_plan, p_codec, p_w
 
 PROPS = {}
 
+
+def only(rule_fn, keep, label):
+    """a rule restricted to the obligations that concern one side (encoder / decoder) of a two-sided rule: a property about
+    the decoder must not be reported broken by an encoder-side obligation of a shared rule, and vice versa.  Anchor and floor
+    failures of the rule are kept (fail closed)."""
+    def run(ctx):
+        out = []
+        for o in rule_fn(ctx):
+            k = o.key.split(":", 1)[1] if o.key.startswith(o.rule + ":") else o.key
+            if k == "floor" or k.startswith("anchor-missing") or keep(k):
+                out.append(o)
+        return out
+    run.__name__ = getattr(rule_fn, "__name__", "rule") + "[" + label + "]"
+    return run
+
+
+B256_ENC = lambda k: k in ("rand255-enc", "length-enc", "length-zero-form")
+B256_DEC = lambda k: k in ("rand255-dec", "rand253-dec", "length-dec")
+ECI_ENC = lambda k: k in ("ECI-codeword", "write-forms", "write-ranges")
+ECI_DEC = lambda k: k in ("ECI-codeword", "read-table") or k.startswith("read-table")
+_col = lambda k: k.rsplit(":", 1)[-1]
+SYM_RS = lambda k: k.startswith(("exhaustive", "variants", "SYMBOL_SIZES")) or _col(k) in ("data", "ecc_blocks", "ecc_per_block", "area")
+SYM_GEOM = lambda k: k.startswith(("exhaustive", "variants", "SYMBOL_SIZES", "dims-unique")) or _col(k) in (
+    "width", "height", "extra_vertical_alignments", "extra_horizontal_alignments", "padding", "area")
+MAP_TRAVERSAL = lambda k: _col(k) in ("width", "height", "has_padding", "literal")
+
 PROPS["C12"] = {
     "level": "proof",
     "rules": [p_symbols.tab_sym, p_symbols.ord_rule, p_symbols.prov_filter],
@@ -18,7 +44,7 @@ PROPS["C12"] = {
 
 PROPS["C06"] = {
     "level": "proof",
-    "rules": [p_rs.tab_gen, p_rs.tab_gf, p_rs.gf_ops, p_symbols.tab_sym, p_rs.prov_rsenc, p_rs.uniform],
+    "rules": [p_rs.tab_gen, p_rs.tab_gf, p_rs.gf_ops, only(p_symbols.tab_sym, SYM_RS, "codeword and block columns"), p_rs.prov_rsenc, p_rs.uniform],
     "explanation": "Decided: (1) all 25 generator polynomials equal prod(x-2^i) computed by an independent carry-less GF(256) "
                    "implementation, one per degree required by the standard, and generator(len) selects by degree; (2) ANTI_LOG/LOG "
                    "equal the powers of 2 modulo 0x12D and GF add/sub/mul/div agree with the reference field for all 65536 operand "
@@ -91,14 +117,16 @@ PROPS["C16"] = {
 
 PROPS["C09"] = {
     "level": "proof",
-    "rules": [p_rs.synzero, p_rs.prov_rsdec, p_rs.tab_gen, p_rs.tab_gf, p_rs.gf_ops],
+    "rules": [p_rs.synzero, p_rs.prov_rsdec, p_rs.tab_gf, p_rs.gf_ops],
     "explanation": "SYNZERO is a typestate argument over decode_gen's statement structure: a bit `verified` is set only on the "
                    "all-zero edge of primitive_element_evaluation(<data.step_by(stride) ++ error.step_by(stride)>, <the whole k-entry "
                    "syndrome buffer>) and cleared by every store into data/error; every `Ok` exit of decode_gen must see the bit set; "
                    "primitive_element_evaluation returns the OR over all k outputs; decode() returns Ok only after every block returned "
-                   "Ok. With TAB-GEN/TAB-GF/GF-OPS (the generator of degree k has exactly the roots 2^1..2^k in the field the code "
-                   "computes in) this gives: Ok => every interleaved block has k zero syndromes => it is a codeword.",
-    "trusted_base": ["primitive_element_evaluation evaluates at alpha^1..alpha^len(out) (pinned by test_evaluate_primitive, test_primitive_element_evaluation, test_error_code)",
+                   "Ok; PEE-POINTS: the evaluation points are alpha^1..alpha^k (all coefficients as running terms, scaled by 1, alpha, "
+                   "alpha^2, .. before each sum). With TAB-GF/GF-OPS (the field the code computes in is GF(256)/0x12D) this gives: Ok => "
+                   "every interleaved block vanishes at 2^1..2^k => it is a codeword of the standard's code. (That the encoder's "
+                   "generator table has the same roots is C06's TAB-GEN, not needed here.)",
+    "trusted_base": ["GF::primitive_powers() yields 1, alpha, alpha^2, .. (pinned by test_gf256_power_iterator)",
                      "rustc THIR", "rules/p_rs.py typestate walk", "std iterator semantics (step_by, chain, nth)"],
     "assumptions": ["default cargo features"],
     "technique": "typestate (must-be-verified-at-exit) over THIR statement structure + constant-table proof obligations",
@@ -106,14 +134,14 @@ PROPS["C09"] = {
 
 PROPS["C03"] = {
     "level": "other",
-    "rules": [p_rs.prov_rsdec, p_rs.gather_scatter, p_rs.synzero, p_rs.root_cover, p_symbols.tab_sym, p_rs.tab_gen],
+    "rules": [p_rs.prov_rsdec, p_rs.gather_scatter, p_rs.synzero, p_rs.root_cover, only(p_symbols.tab_sym, SYM_RS, "codeword and block columns")],
     "explanation": "Clause-level claim: that every pattern of weight <= floor(k/2) is repaired is a theorem about Levinson-Durbin + "
                    "Chien + Bjoerck-Pereyra over GF(256) that no static argument in reach establishes (a mutation inside the locator "
                    "recursion is NOT detected). Decided necessary conditions, all about interleaving (the part the single-block tests "
                    "cannot see): decode() hands block b the views data[b..], error[b..] with stride = number of blocks and err_len = k "
                    "of that size, for every block; the corrected codeword is addressed through exactly the strided chain the syndromes "
                    "were computed from at position n-i-1, after rejecting i >= n; success is only reported for a verified codeword "
-                   "(SYNZERO); block structure numbers and generator polynomials equal the standard.",
+                   "(SYNZERO); the Chien search is exhaustive (ROOT-COVER); block structure numbers equal the standard. (The generator table is the encoder's business: C06.)",
     "assumptions": ["default cargo features"],
     "technique": "provenance and shape rules over THIR (strided-view equality), typestate",
 }
@@ -155,7 +183,7 @@ PROPS["C19"] = {
 
 PROPS["C04"] = {
     "level": "other",
-    "rules": [p_codec.tab_dec, p_codec.dec_thresh, p_codec.dec_mode, p_codec.tab_cw, p_b256.tab_b256, p_b256.dec_b256],
+    "rules": [p_codec.tab_dec, p_codec.dec_thresh, p_codec.dec_mode, p_codec.tab_cw, only(p_b256.tab_b256, B256_DEC, "decoder side"), p_b256.dec_b256],
     "explanation": "Clause-level claim. Decided: the decoder's per-codeword decision tables - ASCII (256 codewords x upper-shift state), "
                    "C40 and Text (4 shift sets x 256 values x upper-shift state, with the table constants decode_parts passes for each "
                    "mode), X12 values, EDIFACT six-bit values, the 16-bit pair unpacking - equal ISO/IEC 16022 Table 2 / Annex C / 5.2.7 / "
@@ -170,7 +198,7 @@ PROPS["C04"] = {
 
 PROPS["C02"] = {
     "level": "other",
-    "rules": [p_codec.tab_cw, p_codec.tab_sets, p_wire.prov_sym, p_wire.pad_path, p_b256.tab_b256, p_rs.prov_rsenc, p_symbols.tab_sym],
+    "rules": [p_codec.tab_cw, p_codec.tab_sets, p_wire.prov_sym, p_wire.pad_path, only(p_b256.tab_b256, B256_ENC, "encoder side"), p_rs.prov_rsenc, only(p_symbols.tab_sym, SYM_RS, "codeword and block columns")],
     "explanation": "Clause-level claim. Decided: every codeword constant equals ISO/IEC 16022 Table 2; the encoder-side C40/Text/X12/"
                    "EDIFACT/ASCII character tables (extracted as per-byte decision tables) equal Annex C / 5.2.7 / 5.2.8 transcribed "
                    "independently of the decoder, with the 1600/40/1 packing; the returned symbol is symbol_for(0) = the first symbol of "
@@ -201,7 +229,7 @@ PROPS["C01"] = {
 PROPS["C11"] = {
     "level": "other",
     "engine": "dmx-facts + panic-residue",
-    "rules": [p_wire.dom_errcls, p_wire.gate_hint, p_macro.dom_macro, p_plan.sync, p_charset.tab_eci, p_b256.b256_sync, p_panic.residue_rule("encode"), p_panic.invariants, p_panic.t_loops_encode],
+    "rules": [p_wire.dom_errcls, p_wire.gate_hint, p_macro.dom_macro, p_plan.sync, only(p_charset.tab_eci, ECI_ENC, "writer"), p_b256.b256_sync, p_panic.residue_rule("encode"), only(p_panic.invariants, lambda k: k in ("log-range", "data>=blocks"), "shared tables"), p_panic.invariants_encode, p_panic.t_loops_encode],
     "explanation": "Clause-level claim. Decided: DOM-ERRCLS - the error is SymbolListEmpty iff the list is empty (its only constructions are "
                    "on the true edge of symbol_list.is_empty(), which is tested first, and in the reservation-hint wrapper, which GATE-HINT "
                    "shows is Some for every non-empty list); DOM-MACRO - the macro re-slice cannot panic for short envelopes; SYNC - planner "
@@ -234,7 +262,7 @@ PROPS["C10"] = {
 
 PROPS["C08"] = {
     "level": "other",
-    "rules": [p_bitmap.dom_bitmap, p_bitmap.align_cover, p_bitmap.prov_map, p_bitmap.render_geom, p_symbols.tab_sym],
+    "rules": [p_bitmap.dom_bitmap, p_bitmap.align_cover, p_bitmap.prov_map, p_bitmap.render_geom, only(p_symbols.tab_sym, SYM_GEOM, "geometry columns")],
     "explanation": "Clause-level claim. Decided: the rejection clause (last sentence): ZeroWidth exactly on the true edge of the first test "
                    "`width == 0`, every division by width on its false edge, DataSize exactly for len % width != 0, SymbolSize exactly "
                    "for a failed lookup of (width, len/width) in the full catalogue, five error variants; ALIGN-COVER - the finder tests "
@@ -248,7 +276,7 @@ PROPS["C08"] = {
 
 PROPS["C07"] = {
     "level": "other",
-    "rules": [p_place.tab_plc, p_bitmap.prov_map, p_symbols.tab_sym],
+    "rules": [p_place.tab_plc, only(p_bitmap.prov_map, MAP_TRAVERSAL, "traversal fields"), only(p_symbols.tab_sym, SYM_GEOM, "geometry columns")],
     "explanation": "Clause-level claim by source-level comparison with the standard's reference placement program (Annex F.3, transcribed "
                    "independently; the repo's extra/symbol_placement.c is not the oracle). Decided after canonicalisation (polynomial "
                    "normal form over i, j, h, w; integer comparison normalisation; De Morgan): the five module tables (utah, corner1-4: "
@@ -267,7 +295,7 @@ PROPS["C05"] = {
     "level": "other",
     "engine": "panic-residue + dmx-facts",
     "rules": [p_panic.residue_rule("decode"), p_panic.invariants, p_panic.div_guard, p_rs.gather_scatter, p_bitmap.dom_bitmap,
-              p_panic.t_alt, p_panic.t_loops, p_codec.dec_mode, p_charset.tab_eci, p_charset.tab_iso],
+              p_panic.t_alt, p_panic.t_loops, p_codec.dec_mode, only(p_charset.tab_eci, ECI_DEC, "reader"), p_charset.tab_iso_traps],
     "explanation": "Decided per site; undecided sites are listed, never counted as proved. Panic part: the crate is compiled to LLVM IR "
                    "at opt-level 3 with overflow checks and debug assertions ON; every arithmetic overflow, bounds check, division by "
                    "zero, unwrap and assertion is then a call to a noreturn function, and the optimiser deletes those it proves dead. "
